@@ -606,11 +606,11 @@ func c06Handshake(in *c06In, aes bool) Result {
 	}
 	_ = hostT
 	mk := func(start int, version uint16, asked bool, obs string) string {
-		return cApp("CHandshake", cBool(aes), cList(raw), cStr("127.0.0.1:443"), cStr(in.SNI), cN(uint64(in.CMin)), cN(uint64(in.CMax)),
+		return cApp("CHandshake", cBool(aes), cList(raw), cStr("127.0.0.1:443"), cStr(in.Dflt), cStr(in.SNI), cN(uint64(in.CMin)), cN(uint64(in.CMax)),
 			cStr(rhost), cN(uint64(start)), cN(uint64(version)), cBool(asked), obs)
 	}
 	sig := "handshake:plain"
-	if s := c06ServeSig(&c06In{Sites: in.Sites, TLS: true, SNI: in.SNI, Host: in.Host}, hosts); s != "serve:plain" {
+	if s := c06ServeSig(&c06In{Sites: in.Sites, TLS: true, SNI: in.SNI, Host: in.Host, Dflt: in.Dflt}, hosts); s != "serve:plain" {
 		sig = "handshake:" + strings.TrimPrefix(s, "serve:")
 	}
 	// certificate selection (certmagic) is not part of the property: give the listener a
@@ -619,6 +619,13 @@ func c06Handshake(in *c06In, aes bool) Result {
 	if n := strings.ToLower(in.SNI); n != "" {
 		names = append(names, n)
 	}
+	if n := strings.ToLower(strings.TrimSpace(in.Dflt)); n != "" && net.ParseIP(n) == nil {
+		names = append(names, n)
+	}
+	// the default server name (-default-sni) in force while the instance runs
+	oldDflt := certmagic.Default.DefaultServerName
+	certmagic.Default.DefaultServerName = in.Dflt
+	defer func() { certmagic.Default.DefaultServerName = oldDflt }()
 	cp, kp, _ := c06SelfSigned("verif-server", names, []net.IP{net.ParseIP("127.0.0.1"), net.ParseIP("::1")}, false)
 	os.WriteFile(c06Files.cert, cp, 0o644)
 	os.WriteFile(c06Files.key, kp, 0o600)
@@ -922,7 +929,8 @@ func c06GenSniLess(r *Rand) *c06In {
 	auth(&ca, 85)
 	in.Sites = append(in.Sites, ca)
 	for k := r.Intn(3); k > 0; k-- {
-		s := c06Site{Addr: r.Pick([]string{"127.0.0.1:443", "10.0.0.1:443", "[::1]:443", "a.com:443", "b.com", "*.a.com:443", "localhost"})}
+		s := c06Site{Addr: r.Pick([]string{"127.0.0.1:443", "10.0.0.1:443", "[::1]:443", "a.com:443", "b.com", "*.a.com:443", "localhost",
+			"*.a.com:443", "*.*.com:443", "*.x.a.com:443", "x.a.com:443"})}
 		auth(&s, 30)
 		in.Sites = append(in.Sites, s)
 	}
@@ -949,8 +957,22 @@ func c06GenSniLess(r *Rand) *c06In {
 		host = ":443"
 	}
 	in.Host = &host
-	if r.Chance(25) {
-		in.Dflt = c06Decorate(r, r.Pick([]string{"a.com", "z.org", "x.a.com", "127.0.0.1", " ", "b.com"}), true)
+	if r.Chance(40) {
+		// the default server name: an instance of one of the sites' patterns (exact, through a
+		// wildcard, one label more or fewer), or a name no site carries
+		var pats []string
+		for _, s := range in.Sites {
+			if a, err := httpserver.VerifC06SiteAddress(s.Addr); err == nil && a.Host != "" {
+				pats = append(pats, a.Host)
+			}
+		}
+		d := r.Pick([]string{"a.com", "z.org", "x.a.com", "127.0.0.1", " ", "b.com", "q.x.a.com", "w.b.com"})
+		if len(pats) > 0 && r.Chance(65) {
+			if d2 := c06NameFor(r, pats); d2 != "" {
+				d = d2
+			}
+		}
+		in.Dflt = c06Decorate(r, d, true)
 	}
 	if r.Chance(85) {
 		c := r.Pick([]string{"127.0.0.1:443", "10.0.0.1:8443", "[::1]:443", "127.0.0.1:443", "10.9.9.9:443", "127.0.0.1", "noport"})
@@ -962,7 +984,7 @@ func c06GenSniLess(r *Rand) *c06In {
 func c06GenLookup(r *Rand) *c06In {
 	in := &c06In{Kind: "lookup"}
 	n := r.Range(1, 5)
-	mode := r.Intn(100) // <80 all TLS, <88 all plaintext, else mixed
+	mode := r.Intn(100) // <78 all TLS, <85 all plaintext, else mixed
 	var hosts []string
 	for i := 0; i < n; i++ {
 		host := r.Pick(c06HostPool)
@@ -992,9 +1014,9 @@ func c06GenLookup(r *Rand) *c06In {
 			c = c06RandCfg(r, host)
 		}
 		switch {
-		case mode < 80:
+		case mode < 78:
 			c.Enabled = true
-		case mode < 88:
+		case mode < 85:
 			c.Enabled = false
 		default:
 			c.Enabled = r.Chance(60)
@@ -1007,6 +1029,48 @@ func c06GenLookup(r *Rand) *c06In {
 			hosts = append(hosts, c.Host)
 		}
 	}
+	if mode >= 85 && len(in.Cfgs) >= 2 {
+		// a mixed group in every order: plaintext entry first, TLS entry first, nil entry first
+		// (a nil entry stands for a site without TLS), the other kind somewhere behind it
+		first, later := &in.Cfgs[0], &in.Cfgs[1+r.Intn(len(in.Cfgs)-1)]
+		mkTLS := func(c *c06Cfg) {
+			if c.Nil {
+				*c = c06RandCfg(r, r.Pick(c06HostPool))
+			}
+			c.Enabled = true
+		}
+		mkPlain := func(c *c06Cfg) {
+			if r.Chance(25) {
+				*c = c06Cfg{Nil: true}
+			} else {
+				if c.Nil {
+					*c = c06RandCfg(r, r.Pick(c06HostPool))
+				}
+				c.Enabled = false
+			}
+		}
+		switch r.Intn(3) {
+		case 0:
+			mkPlain(first)
+			if first.Nil {
+				*first = c06RandCfg(r, r.Pick(c06HostPool))
+				first.Enabled = false
+			}
+			mkTLS(later)
+		case 1:
+			mkTLS(first)
+			mkPlain(later)
+		case 2:
+			*first = c06Cfg{Nil: true}
+			mkTLS(later)
+		}
+		hosts = hosts[:0]
+		for _, c := range in.Cfgs {
+			if !c.Nil {
+				hosts = append(hosts, c.Host)
+			}
+		}
+	}
 	in.SNI = c06Decorate(r, c06NameFor(r, hosts), true)
 	if r.Chance(15) {
 		in.Dflt = c06Decorate(r, c06NameFor(r, hosts), true)
@@ -1015,6 +1079,48 @@ func c06GenLookup(r *Rand) *c06In {
 		c := r.Pick(c06Conns)
 		in.Conn = &c
 	}
+	return in
+}
+
+// c06GenMixed: a listener group that mixes TLS and plaintext sites, for NewServer (serve) or
+// casket.Start (handshake), with the plaintext site first, last or in the middle.
+func c06GenMixed(r *Rand, kind string) *c06In {
+	in := &c06In{Kind: kind, TLS: true}
+	addrs := []string{"a.com:443", "b.com:443", "x.a.com:443", "*.a.com:443", ":443", "localhost:443"}
+	if kind == "handshake" {
+		addrs = []string{"a.com:0", "b.com:0", "x.a.com:0", "*.a.com:0", ":0", "localhost:0"}
+	}
+	p := r.Perm(len(addrs))
+	n := r.Range(2, 4)
+	for i := 0; i < n; i++ {
+		s := c06Site{Addr: addrs[p[i]]}
+		if kind == "handshake" {
+			s.Opts = c06GenOpts(r, true)
+		} else if r.Chance(50) {
+			s.Auth = 2
+		}
+		in.Sites = append(in.Sites, s)
+	}
+	off := func(i int) { in.Sites[i].Off, in.Sites[i].Opts, in.Sites[i].Auth = true, nil, 0 }
+	switch r.Intn(4) {
+	case 0: // plaintext first
+		off(0)
+	case 1: // plaintext last
+		off(n - 1)
+	case 2: // plaintext first and somewhere else, TLS last
+		off(0)
+		if n > 2 {
+			off(1)
+		}
+	case 3: // only the first is TLS
+		for i := 1; i < n; i++ {
+			off(i)
+		}
+	}
+	host := r.Pick([]string{"a.com", "b.com", "x.a.com", "z.org", ""})
+	in.SNI = host
+	in.Host = &host
+	in.CMin, in.CMax = 0x0301, 0x0304
 	return in
 }
 
@@ -1136,6 +1242,14 @@ func c06GenHandshake(r *Rand) *c06In {
 		h := "[" + base + ":80]:90"
 		in.Host = &h
 	}
+	if base == "" && r.Chance(45) {
+		// no SNI: a default server name aimed at the sites' patterns (exact, through a wildcard, none)
+		d := c06NameFor(r, pats)
+		if d == "" || strings.ContainsAny(d, ":*") || strings.HasSuffix(d, ".") || strings.Contains(d, "..") {
+			d = r.Pick([]string{"x.a.com", "z.org", "b.com", "q.a.com"})
+		}
+		in.Dflt = c06Decorate(r, d, false)
+	}
 	a := r.Intn(4)
 	b := a + r.Intn(4-a)
 	in.CMin, in.CMax = c06Versions[a], c06Versions[b]
@@ -1148,9 +1262,9 @@ func c06GenHandshake(r *Rand) *c06In {
 func c06Gen(r *Rand, tier string) []interface{} {
 	c06Setup()
 	var out []interface{}
-	nSplit, nLookup, nDefaults, nSetup, nServe, nSniLess, nHand := 250, 1600, 200, 350, 1800, 200, 120
+	nSplit, nLookup, nDefaults, nSetup, nServe, nSniLess, nHand, nMixed := 250, 1600, 200, 350, 1800, 400, 160, 60
 	if tier == "thorough" {
-		nSplit, nLookup, nDefaults, nSetup, nServe, nSniLess, nHand = 2500, 16000, 2000, 3500, 18000, 2000, 1200
+		nSplit, nLookup, nDefaults, nSetup, nServe, nSniLess, nHand, nMixed = 2500, 16000, 2000, 3500, 18000, 4000, 1200, 600
 	}
 	// SplitHostPort: structured strings around brackets and colons
 	parts := []string{"a", "b.com", "[", "]", ":", "80", "::1", "", "x", "]:", "[a", ":1"}
@@ -1199,6 +1313,12 @@ func c06Gen(r *Rand, tier string) []interface{} {
 	for i := 0; i < nHand; i++ {
 		out = append(out, c06GenHandshake(r))
 	}
+	for i := 0; i < nMixed; i++ {
+		out = append(out, c06GenMixed(r, "serve"))
+	}
+	for i := 0; i < nMixed/5; i++ {
+		out = append(out, c06GenMixed(r, "handshake"))
+	}
 	return out
 }
 
@@ -1207,7 +1327,7 @@ func init() {
 		ID: "C06", Imports: "V.Lib V.C06_Model", Judge: "judge",
 		Rule: "cases = net.SplitHostPort strings; caskettls.MakeTLSConfig(configs).GetConfigForClient(hello) on config sets x SNI x default-sni x local address " +
 			"(governing config by pointer identity, its tls.Config fields); SetDefaultTLSParams; the real tls directive setup; httpserver.NewServer + " +
-			"ServeHTTP with crossed SNI/Host (local address of the connection in the request context), a stream without SNI against catch-all, local-address and named sites x default-sni; casket.Start + real loopback TLS handshakes (negotiated version, certificate request, response). " +
+			"ServeHTTP with crossed SNI/Host (local address of the connection in the request context), a stream without SNI against catch-all, local-address and named sites x default-sni; casket.Start + real loopback TLS handshakes (negotiated version, certificate request, response; without SNI also under a default server name); TLS/plaintext mixes with the plaintext, TLS or nil entry first for MakeTLSConfig, NewServer and casket.Start. " +
 			"non-trivial = lookup with >=2 configs, split string containing ':[ ]', setup with sub-directives, serve on a TLS connection with a site " +
 			"that demands client certificates, every handshake; distinct = distinct Coq case term",
 		Gen: c06Gen,
